@@ -171,7 +171,16 @@ def ownLines (code : List Tok) (fns : List Fn) (f : Fn) : List Nat :=
 def allLines (code : List Tok) (f : Fn) : List Nat :=
   (code.zipIdx.filter (fun ti => f.hdr.rng.s ≤ ti.2 && ti.2 < f.body.e)).map (·.1.line)
 
-/-- the location just past the end of a token (tokens may contain line breaks) -/
+/-- the location just past the end of a token (tokens may contain line breaks): on the token's line,
+`text length` columns behind its start; for a text with `k > 0` line breaks, `k` lines below, one
+column past the length of the text after the last line break.
+
+This is computed from the token's OWN text and location, the way `Scanner.scan_file` does (and it is
+the same function as `Tok.endPos` of `Spec/Scan.lean`: `C01text.endPos_L_eq_endPos`).  That it IS
+the (line, column) of the text offset just past the token - `lineOf` / `colOf` of `Spec/Lex.lean`,
+which count the newlines of the TEXT - for every token that `lex` places from a raw stream tiling the
+text is `C01text.end_location_is_text_end`; an example with a last token over two lines:
+`C01pytext.Ex.docLast_end`. -/
 def Tok.endPos_L (t : Tok) : Nat × Nat :=
   if (lastLineInfo t.val).1 = 0 then (t.line, t.col + t.val.length)
   else (t.line + (lastLineInfo t.val).1, (lastLineInfo t.val).2 + 1)
